@@ -598,6 +598,47 @@ Definition mon_C14 (p : prog) (c : cfg) (complete : bool) (tr : list event) : bo
               else true))
           (started_acts tr).
 
+(* C14, further clauses (second round of seeded changes): a defer entry placed AFTER the command that
+   failed was never reached and must not run; and EXIT_CODE is never invented: an activation with no
+   failing command of its own shows its deferred commands either nothing (0) or the exit status of
+   some command that did fail in this run (a failing callee hands its status to the caller) - in
+   particular never the status of a failing DEFERRED command. *)
+Definition own_failure_idx (p : prog) (c : cfg) (a : aid) (tr : list event) : option nat :=
+  match find (fun e => match e with EvProbeEnd b i => aid_eqb a b && failing_cmd p c a i | _ => false end) tr with
+  | Some (EvProbeEnd _ i) => Some i
+  | _ => None
+  end.
+
+Definition failing_codes (p : prog) (c : cfg) (tr : list event) : list nat :=
+  flat_map (fun e => match e with
+                     | EvProbeEnd b i => if failing_cmd p c b i then [exit_of p c b i] else []
+                     | _ => [] end) tr.
+
+Definition mon_C14x (p : prog) (c : cfg) (tr : list event) : bool :=
+  forallb (fun a =>
+             (match own_failure_idx p c a tr with
+              | Some f => forallb (fun i => Nat.ltb i f) (dann_of a tr)
+              | None => true
+              end) &&
+             forallb (fun e => match e with
+                               | EvDProbeBegin b _ code =>
+                                   if aid_eqb a b then
+                                     match own_failure p c a tr with
+                                     | Some _ => true          (* judged by exit_codes_ok *)
+                                     | None => Nat.eqb code 0 || existsb (Nat.eqb code) (failing_codes p c tr)
+                                     end
+                                   else true
+                               | _ => true end) tr)
+          (started_acts tr).
+
+(* C01 for deferred commands: they are commands of the task too - a deferred command is only ever
+   announced or started by an activation whose deps all ended successfully *)
+Definition mon_C01d (p : prog) (c : cfg) (tr : list event) : bool :=
+  accepts (fun st e => match e with
+                       | EvDAnnounce a _ | EvDProbeBegin a _ _ => if deps_ok p c st a then Some st else None
+                       | _ => step01 false p c st e
+                       end) {| ok_acts := []; ok_keys := [] |} tr.
+
 (* everything the executor monitors demand of one observed run *)
 Definition mon_all (p : prog) (c : cfg) (complete : bool) (tr : list event) : list bool :=
   [ mon_C01 p c tr; mon_calls p c tr; mon_waits p c tr; mon_C02 p c tr; mon_C03 p c tr; mon_C06 p c tr; mon_C07 c tr; mon_C13 p c tr; mon_C14 p c complete tr ].
